@@ -1,6 +1,7 @@
 (* C09 — Corruption of stored data is detected, never served as valid.
    Only the property theorems, each closed by `exact`. The model (Corrupt/TxRecord.v) is the code
-   as it is: the readers compare the recomputed Alh ONLY with the 32 bytes stored inside the record,
+   as it is: the readers compare the recomputed Alh ONLY with the 32 bytes stored inside the record (and the
+   decoded id with the requested one),
    vLen/vOff are under no hash, ReadValue answers vLen = 0 before any check. The statement of the
    property therefore splits into what holds (…_partial, …_detected, …_no_panic) and what the
    current code violates (…_refuted, witnesses replayed on the Go code by harness/c09).
@@ -9,7 +10,7 @@
    on every run; they are not restated here because Print Assumptions lists Coq's primitive
    63-bit integers, used by that SHA-256, as axioms. *)
 From V Require Import Corrupt.TxRecord Corrupt.HTreeBind Corrupt.Binding Corrupt.ReaderSound
-  Corrupt.NoPanic Corrupt.Roundtrip Corrupt.GenericRefute Corrupt.Witness Merkle.Sha256.
+  Corrupt.NoPanic Corrupt.Roundtrip Corrupt.GenericRefute Corrupt.IdAndExport Corrupt.Witness Merkle.Sha256.
 
 (* The entry tree binds its leaves: two lists of entry digests of equal length with the same root
    are the same list, or a hash collision has been exhibited. *)
@@ -75,6 +76,16 @@ Proof. exact chain_check_detects. Qed.
 Print Assumptions C09_chain_check_detects.
 
 
+
+(* The transaction that is returned is the one that was asked for: whatever bytes are stored where
+   the commit log places transaction id, a successful ReadTx(id) — with or without integrity check —
+   returns a transaction carrying that id; the record of another committed transaction copied there
+   is refused (code as fixed by 93c30ce). *)
+Theorem C09_read_tx_id_checked :
+  forall (H : bytes -> bytes) (chk : bool) (ns mk : N) (txlog : bytes) (off size id : N) (t : tx),
+  read_tx_at H chk ns mk txlog off size id = Ok t -> h_id (t_hdr t) = id.
+Proof. exact read_tx_at_id. Qed.
+Print Assumptions C09_read_tx_id_checked.
 
 (* No false alarm / completeness: the record written for a well-formed metadata-free transaction,
    followed by anything, is read back as exactly that transaction and compared with its Alh. *)
@@ -161,13 +172,26 @@ Proof. exact export_values_sound. Qed.
 Print Assumptions C09_export_values_sound.
 
 
-(* ... but a value made unreadable (vOff moved beyond the end of the log) is taken for "truncated
-   by retention": the export succeeds with the digest in place of the value, no error. *)
+(* An export is flagged "values truncated" only when some entry carries a value reference without a
+   value log (vLogID 0 outside embedded mode); every other unreadable value — vOff / vLen altered so
+   that the read leaves the log, altered value bytes — makes ExportTx fail (code as fixed by 6fe0104;
+   a store has at most MaxParallelIO = 127 value logs). *)
+Theorem C09_export_truncated_only_without_vlog :
+  forall (H : bytes -> bytes) (chk : bool) (mvl : N) (mode : vmode) (txlog : bytes) (vlogs : list bytes),
+  (length vlogs <= 127)%nat ->
+  forall (es : list entry) (c : option vcache) (i : N) (trunc t : bool) (l : list bytes),
+  fst (export_values H chk mvl mode txlog vlogs c es i trunc) = Ok (t, l) ->
+  t = true -> trunc = true \/ exists e, In e es /\ no_vlog mode (e_voff e).
+Proof. exact export_truncated_only_without_vlog. Qed.
+Print Assumptions C09_export_truncated_only_without_vlog.
+
+(* ... and that remaining case happens: a vOff whose vLogID byte was altered to 0 (value intact in the
+   log) is exported as "truncated", digest in place of the value, no error. *)
 Theorem C09_export_values_refuted :
   forall (H : bytes -> bytes) (hval : bytes),
-  fst (export_values H true 64 VSingle [] [w_vlog] None [w_entry [107; 49] 2 (w_voff + 100) hval] 0 false)
+  fst (export_values H true 64 VSingle [] [w_vlog] None [w_entry [107; 49] 2 3 hval] 0 false)
     = Ok (true, [hval]).
-Proof. exact export_eof_as_truncated. Qed.
+Proof. exact export_no_vlog_as_truncated. Qed.
 Print Assumptions C09_export_values_refuted.
 
 (* Never crashes, transactions: for EVERY byte string, holder size, key-buffer size, with or
